@@ -19,7 +19,8 @@ BOUNDS = {
     'quick': '1 superslab (2 for two configurations), halos per slab 0..2, particle file of <= 2 records per subsample, cleaned file of <= 1 '
              'record, layout integers free under the validity predicate (ranges inside their file, ordered, gaps allowed, zero-particle halos, '
              'cleaned-away halos N_total=0); options: cleaned on/off x (A | A+B) x {pos+vel, pid, pid with unpack_bits=[lagr_idx,tagged], '
-             'passthrough rvint+packedpid}; light-cone layout (single lc_pid_rv file)',
+             'passthrough rvint+packedpid}; light-cone layout (single lc_pid_rv file)'
+             '; also: file-list loads with superslab numbers [1,2] and [2] (superslab 0 also on disk)',
     'thorough': 'particle file <= 3 records, cleaned file <= 2 (A only; with A+B cleaned: 2 and 1), one more 2-superslab configuration with A+B',
 }
 OUTSIDE = 'decoding of the words (C04); file discovery (C03); layouts above the bound (the zipper treats halos independently given the write offsets)'
